@@ -18,6 +18,7 @@ import (
 func c13Pat(i int) byte { return byte((i + (i>>8)*3 + 1) & 0xff) }
 
 type c13Op struct {
+	inner  *c13Op
 	kind   byte
 	data   []byte
 	n      int
@@ -31,8 +32,21 @@ func c13Parse(toks []string) []c13Op {
 	for _, t := range toks {
 		op := c13Op{kind: t[0]}
 		arg := t[1:]
+		if t[0] == 'q' { // q<n>/<tok>: ReadOnce of n bytes whose reader first performs <tok> on the same buffer
+			k := strings.IndexByte(arg, '/')
+			in := c13Parse([]string{arg[k+1:]})[0]
+			if in.kind == 'w' || in.kind == 'o' {
+				// the inner payload continues the global pattern
+				for i := range in.data {
+					in.data[i] = c13Pat(written + i)
+				}
+				written += len(in.data)
+			}
+			op.inner = &in
+			arg = arg[:k]
+		}
 		switch t[0] {
-		case 'w', 'o':
+		case 'w', 'o', 'q':
 			n := atoi(arg)
 			op.data = make([]byte, n)
 			for i := range op.data {
@@ -147,94 +161,125 @@ func c13Stream(toks []string) string {
 	return strings.Join(out, " ; ")
 }
 
+// c13BufOp executes one op on b and renders its return value.
+func c13BufOp(b *iox.Buffer, op c13Op, inner *[]string) string {
+	switch op.kind {
+	case 'w':
+		scratch := append([]byte(nil), op.data...)
+		n, err := b.Write(scratch)
+		for i := range scratch {
+			scratch[i] = 0xEE
+		}
+		if err != nil {
+			return fmt.Sprintf("W%d!%v", n, err)
+		}
+		return fmt.Sprintf("W%d", n)
+	case 'o', 'q':
+		// Buffer.ReadOnce: the second way into Write. First a reader that fails (nothing may
+		// change, (0, err) expected), then a reader that delivers exactly the payload into a
+		// larger scratch buffer, which is scribbled over afterwards. 'q': the reader first calls
+		// back into the SAME buffer (op.inner; its observation is a trace line of its own).
+		before := append([]byte(nil), b.Bytes()...)
+		if n, err := b.ReadOnce(c13FailReader{}, make([]byte, len(op.data)+3)); n != 0 || err == nil || !bytes.Equal(before, b.Bytes()) {
+			return fmt.Sprintf("READONCE-ERROR-PATH n=%d err=%v", n, err)
+		}
+		scratch := make([]byte, len(op.data)+3)
+		var rd io.Reader = &c13ChunkReader{data: op.data}
+		if op.kind == 'q' {
+			rd = &c13ReentrantReader{b: b, inner: *op.inner, data: op.data, lines: inner}
+		}
+		n, err := b.ReadOnce(rd, scratch)
+		for i := range scratch {
+			scratch[i] = 0xEE
+		}
+		if err != nil {
+			return fmt.Sprintf("W%d!%v", n, err)
+		}
+		return fmt.Sprintf("W%d", n)
+	case 'r':
+		p := make([]byte, op.n)
+		for i := range p {
+			p[i] = 0xEE
+		}
+		n, err := b.Read(p)
+		e := ""
+		if err != nil {
+			if err != io.EOF {
+				return "R!" + err.Error()
+			}
+			e = ":EOF"
+		}
+		return fmt.Sprintf("R%d:%s%s", n, hex.EncodeToString(p[:n]), e)
+	case 'n':
+		return "N" + hex.EncodeToString(b.Next(op.n))
+	case 's':
+		pos, err := b.Seek(op.offset, op.whence)
+		if err != nil {
+			if pos != 0 {
+				return fmt.Sprintf("S!%d,%v", pos, err)
+			}
+			return "SE"
+		}
+		return fmt.Sprintf("S%d", pos)
+	case 't':
+		b.Tidy()
+		return "U"
+	case 'z':
+		b.Reset()
+		return "U"
+	case 'g':
+		b.Grow(op.n)
+		return "U"
+	}
+	panic("unknown op")
+}
+
+// c13BufObs renders the observers after an op.
+func c13BufObs(b *iox.Buffer, ret string) (string, bool) {
+	by, bok := c13Try(func() string {
+		x := b.Bytes()
+		if s := b.String(); s != string(x) {
+			return "STRING-DIFFERS-FROM-BYTES"
+		}
+		return hex.EncodeToString(x)
+	})
+	pos := "E"
+	if p, err := b.Seek(0, io.SeekCurrent); err == nil {
+		pos = fmt.Sprint(p)
+	}
+	return fmt.Sprintf("%s b=%s l=%d c=%d p=%s", ret, by, b.Len(), b.Cap(), pos), bok
+}
+
+// c13ReentrantReader performs one op on the buffer it is being read into, then delivers its data.
+type c13ReentrantReader struct {
+	b     *iox.Buffer
+	inner c13Op
+	data  []byte
+	lines *[]string
+}
+
+func (r *c13ReentrantReader) Read(p []byte) (int, error) {
+	ret := c13BufOp(r.b, r.inner, nil)
+	line, _ := c13BufObs(r.b, ret)
+	*r.lines = append(*r.lines, line)
+	return copy(p, r.data), nil
+}
+
 func c13Buffer(toks []string) string {
 	ops := c13Parse(toks[1:])
 	var b iox.Buffer
 	var out []string
 	for _, op := range ops {
 		op := op
-		ret, ok := c13Try(func() string {
-			switch op.kind {
-			case 'w':
-				scratch := append([]byte(nil), op.data...)
-				n, err := b.Write(scratch)
-				for i := range scratch {
-					scratch[i] = 0xEE
-				}
-				if err != nil {
-					return fmt.Sprintf("W%d!%v", n, err)
-				}
-				return fmt.Sprintf("W%d", n)
-			case 'o':
-				// Buffer.ReadOnce: the second way into Write. First a reader that fails (nothing may
-				// change, (0, err) expected), then a reader that delivers exactly the payload into a
-				// larger scratch buffer, which is scribbled over afterwards.
-				before := append([]byte(nil), b.Bytes()...)
-				if n, err := b.ReadOnce(c13FailReader{}, make([]byte, len(op.data)+3)); n != 0 || err == nil || !bytes.Equal(before, b.Bytes()) {
-					return fmt.Sprintf("READONCE-ERROR-PATH n=%d err=%v", n, err)
-				}
-				scratch := make([]byte, len(op.data)+3)
-				n, err := b.ReadOnce(&c13ChunkReader{data: op.data}, scratch)
-				for i := range scratch {
-					scratch[i] = 0xEE
-				}
-				if err != nil {
-					return fmt.Sprintf("W%d!%v", n, err)
-				}
-				return fmt.Sprintf("W%d", n)
-			case 'r':
-				p := make([]byte, op.n)
-				for i := range p {
-					p[i] = 0xEE
-				}
-				n, err := b.Read(p)
-				e := ""
-				if err != nil {
-					if err != io.EOF {
-						return "R!" + err.Error()
-					}
-					e = ":EOF"
-				}
-				return fmt.Sprintf("R%d:%s%s", n, hex.EncodeToString(p[:n]), e)
-			case 'n':
-				return "N" + hex.EncodeToString(b.Next(op.n))
-			case 's':
-				pos, err := b.Seek(op.offset, op.whence)
-				if err != nil {
-					if pos != 0 {
-						return fmt.Sprintf("S!%d,%v", pos, err)
-					}
-					return "SE"
-				}
-				return fmt.Sprintf("S%d", pos)
-			case 't':
-				b.Tidy()
-				return "U"
-			case 'z':
-				b.Reset()
-				return "U"
-			case 'g':
-				b.Grow(op.n)
-				return "U"
-			}
-			panic("unknown op")
-		})
+		var inner []string
+		ret, ok := c13Try(func() string { return c13BufOp(&b, op, &inner) })
+		out = append(out, inner...)
 		if !ok {
 			out = append(out, "PANIC")
 			break
 		}
-		by, bok := c13Try(func() string {
-			x := b.Bytes()
-			if s := b.String(); s != string(x) {
-				return "STRING-DIFFERS-FROM-BYTES"
-			}
-			return hex.EncodeToString(x)
-		})
-		pos := "E"
-		if p, err := b.Seek(0, io.SeekCurrent); err == nil {
-			pos = fmt.Sprint(p)
-		}
-		out = append(out, fmt.Sprintf("%s b=%s l=%d c=%d p=%s", ret, by, b.Len(), b.Cap(), pos))
+		line, bok := c13BufObs(&b, ret)
+		out = append(out, line)
 		if !bok {
 			break
 		}
